@@ -151,4 +151,163 @@ Section Spec.
         eapply IH; [exact H|]. eapply Hstep; eassumption.
     Qed.
   End Rel.
+
+  (** ** Arbitrary sequences of the operations of [iterate] (specification device: the
+      bookkeeping theorems quantify over every such sequence, [iterate] is one of them).
+      [OLik true] runs over singleton blocks with [block_nodes], [OLik false] over edges. *)
+  Inductive op : Type :=
+  | OLik (unph : bool) (order : list nat) (lik : nat -> V2) (S s : T)
+  | OPrior (free : nat -> bool) (S : T) (em_maxitt : nat) (em_reltol : T)
+  | OPriorPen (free : nat -> bool) (S pen : T)
+  | ORescale.
+
+  Definition op_shape (o : op) : option T :=
+    match o with
+    | OLik _ _ _ sh _ => Some sh
+    | OPrior _ sh _ _ => Some sh
+    | OPriorPen _ sh _ => Some sh
+    | ORescale => None
+    end.
+  Definition op_free (o : op) : nat -> bool :=
+    match o with
+    | OPrior f _ _ _ => f
+    | OPriorPen f _ _ => f
+    | _ => fun _ => false
+    end.
+
+  Definition run_op (o : op) (so : state * Orc) : option (state * Orc) :=
+    match o with
+    | OLik unph order lik sh s =>
+        propagate_likelihood N tiny ep ec bj bk lo hi Orc project unph
+          (if unph then nB else nE) (if unph then bj else ep) (if unph then bk else ec)
+          lik sh s order so
+    | OPrior free sh mx rt =>
+        obind (propagate_prior N infty nN free sh mx rt (fst so)) (fun st => Some (st, snd so))
+    | OPriorPen free sh pen =>
+        obind (prior_update N nN free sh pen (fst so)) (fun st => Some (st, snd so))
+    | ORescale => Some (rescale_factors (fst so), snd so)
+    end.
+
+  Fixpoint run_ops (ops : list op) (so : state * Orc) : option (state * Orc) :=
+    match ops with
+    | [] => Some so
+    | o :: r => obind (run_op o so) (run_ops r)
+    end.
+
+  Lemma run_ops_ind (P : state * Orc -> Prop) (Q : op -> Prop) :
+    (forall o so so', Q o -> run_op o so = Some so' -> P so -> P so') ->
+    forall ops so so', Forall Q ops -> run_ops ops so = Some so' -> P so -> P so'.
+  Proof. intros Hstep ops. induction ops as [|o r IH]; intros so so' HQ H HP; cbn in H.
+    - inversion H; subst; exact HP.
+    - inversion HQ; subst. destruct (run_op o so) as [so1|] eqn:E; cbn [obind] in H; [|discriminate].
+      eapply IH; eauto. Qed.
+
+  (** [iterate] is such a sequence *)
+  Lemma iterate_as_ops block_order edge_order blik elik free S s mx rt (regularise : bool) so :
+    iterate N tiny infty nE ep ec nB bj bk nN lo hi Orc project block_order edge_order blik elik
+      free S s mx rt regularise so
+    = run_ops ([OLik true block_order blik S s; OLik false edge_order elik S s]
+               ++ (if regularise then [OPrior free S mx rt] else []) ++ [ORescale]) so.
+  Proof. unfold iterate. cbn [run_ops app run_op].
+    destruct (propagate_likelihood _ _ _ _ _ _ _ _ _ _ true _ _ _ _ _ _ _ so) as [so1|]; cbn [obind]; [|reflexivity].
+    destruct (propagate_likelihood _ _ _ _ _ _ _ _ _ _ false _ _ _ _ _ _ _ so1) as [so2|]; cbn [obind]; [|reflexivity].
+    destruct regularise; cbn [app run_ops run_op obind].
+    - destruct (propagate_prior _ _ _ _ _ _ _ _) as [st3|]; cbn [obind fst snd]; reflexivity.
+    - reflexivity. Qed.
+
+  (** ** Structural facts: which posteriors an operation can write *)
+  Lemma fset_post unph (st : state) i x : post (fset N unph st i x) = post st.
+  Proof. unfold fset; destruct unph; reflexivity. Qed.
+  Lemma fset_scl unph (st : state) i x : scl (fset N unph st i x) = scl st.
+  Proof. unfold fset; destruct unph; reflexivity. Qed.
+
+  Lemma apply_one_post_other unph side (st : state) i u d cav new eta w : w <> u ->
+    post (apply_one unph side st i u d cav new eta) w = post st w.
+  Proof. intro H. unfold EP.apply_one. cbn [post]. rewrite fset_post. unfold updf.
+    destruct (Nat.eqb_spec w u); congruence. Qed.
+  Lemma apply_one_scl_other unph side (st : state) i u d cav new eta w : w <> u ->
+    scl (apply_one unph side st i u d cav new eta) w = scl st w.
+  Proof. intro H. unfold EP.apply_one. cbn [scl]. rewrite fset_scl. unfold updf.
+    destruct (Nat.eqb_spec w u); congruence. Qed.
+  Lemma apply_one_other_side unph side (st : state) i u d cav new eta :
+    side_get N (negb side) (fget N unph (apply_one unph side st i u d cav new eta) i)
+    = side_get N (negb side) (fget N unph st i).
+  Proof. unfold EP.apply_one, fset, fget, updf; destruct unph, side; cbn; rewrite Nat.eqb_refl; reflexivity. Qed.
+
+  Lemma mr_post st p c : post (mr st p c) = post st.
+  Proof. unfold mr. destruct (_ || _); reflexivity. Qed.
+
+  Lemma step_rel_post_fixed unph par chi lik S s so i so' w :
+    step_rel unph par chi lik S s so i so' -> fixedb w = true -> post (fst so') w = post (fst so) w.
+  Proof. intros Hr Hw. destruct Hr; cbn [fst].
+    - rewrite mr_post; reflexivity.
+    - rewrite apply_one_post_other, mr_post; [reflexivity|]. intro; subst; congruence.
+    - rewrite apply_one_post_other, mr_post; [reflexivity|]. intro; subst; congruence.
+    - rewrite !apply_one_post_other, mr_post; [reflexivity| |]; intro; subst; congruence.
+  Qed.
+
+  Lemma prior_sets_post_other cav pen l : forall (st : state) w, ~ In w l ->
+    post (fold_left (prior_set N cav pen) l st) w = post st w.
+  Proof. induction l as [|a l IH]; intros st w Hw; cbn [fold_left]; [reflexivity|].
+    rewrite IH by (intro; apply Hw; right; assumption).
+    unfold prior_set, updf. cbn [post]. destruct (Nat.eqb_spec w a); [|reflexivity].
+    exfalso; apply Hw; left; congruence. Qed.
+
+  Lemma prior_caps_post_other S l : forall ost (st' : state) w, ~ In w l ->
+    fold_left (prior_cap N S) l ost = Some st' ->
+    exists st, ost = Some st /\ post st' w = post st w.
+  Proof. induction l as [|a l IH]; intros ost st' w Hw H; cbn [fold_left] in H.
+    - exists st'. split; [exact H|reflexivity].
+    - destruct (IH _ _ w (fun Q => Hw (or_intror Q)) H) as (st1 & E1 & P1).
+      unfold prior_cap in E1. destruct ost as [st|]; cbn [obind] in E1; [|discriminate].
+      destruct (rescale1 (post st a) S); cbn [obind] in E1; [|discriminate].
+      inversion E1; subst. exists st. split; [reflexivity|]. rewrite P1. cbn [post]. unfold updf.
+      destruct (Nat.eqb_spec w a); [|reflexivity]. exfalso; apply Hw; left; congruence. Qed.
+
+  Lemma prior_update_post_other free S pen (st st' : state) w : free w = false ->
+    prior_update N nN free S pen st = Some st' -> post st' w = post st w.
+  Proof. intros Hw H. unfold prior_update in H.
+    assert (Hn : ~ In w (free_nodes nN free)).
+    { unfold free_nodes. rewrite filter_In. intros [_ Q]. congruence. }
+    destruct (prior_caps_post_other S _ _ _ w Hn H) as (st1 & E & P). inversion E; subst.
+    rewrite P. apply prior_sets_post_other; exact Hn. Qed.
+
+  Lemma run_op_post_fixed o so so' w :
+    (forall u, op_free o u = true -> fixedb u = false) ->
+    run_op o so = Some so' -> fixedb w = true -> post (fst so') w = post (fst so) w.
+  Proof. intros Hf H Hw. destruct o as [unph order lik S s|free S mx rt|free S pen|]; cbn [run_op op_free] in *.
+    - unfold propagate_likelihood in H. destruct (_ && _); [|discriminate].
+      eapply (edge_loop_ind unph _ _ lik S s (fun so1 => post (fst so1) w = post (fst so) w) (if unph then nB else nE));
+        [|exact H|reflexivity].
+      intros so1 i so2 _ Hr E. rewrite <- E. eapply step_rel_post_fixed; eassumption.
+    - assert (Fw : free w = false) by (destruct (free w) eqn:Q; [apply Hf in Q; congruence|reflexivity]).
+      destruct (propagate_prior _ _ _ _ _ _ _ _) as [st|] eqn:E; cbn [obind] in H; [|discriminate].
+      inversion H; subst; cbn [fst]. unfold propagate_prior in E.
+      destruct (negb _); [discriminate|]. destruct (free_nodes nN free) eqn:Q; [inversion E; reflexivity|].
+      rewrite <- Q in E. destruct (ltb N _ _); [|discriminate].
+      eapply prior_update_post_other; eassumption.
+    - assert (Fw : free w = false) by (destruct (free w) eqn:Q; [apply Hf in Q; congruence|reflexivity]).
+      destruct (prior_update _ _ _ _ _ _) as [st|] eqn:E; cbn [obind] in H; [|discriminate].
+      inversion H; subst; cbn [fst]. eapply prior_update_post_other; eassumption.
+    - inversion H; subst; reflexivity.
+  Qed.
+
+  Lemma run_ops_post_fixed ops so so' w :
+    Forall (fun o => forall u, op_free o u = true -> fixedb u = false) ops ->
+    run_ops ops so = Some so' -> fixedb w = true -> post (fst so') w = post (fst so) w.
+  Proof. intros HQ H Hw.
+    apply (run_ops_ind (fun so1 => post (fst so1) w = post (fst so) w) _
+             (fun o so1 so2 Q E P => eq_trans (run_op_post_fixed o so1 so2 w Q E Hw) P) ops so so' HQ H eq_refl). Qed.
+
+  (** [node_moments] of a fixed node is its constraint, with zero variance *)
+  Lemma node_moments_fixed (st : state) w : fixedb w = true ->
+    node_moments N lo hi st w = (lo w, zero N).
+  Proof. unfold fixedb, node_moments. intros ->. reflexivity. Qed.
+
+  (** form used by props/C21.v *)
+  Lemma C21_fixed ops so so' w :
+    Forall (fun o => forall u, op_free o u = true -> fixedb u = false) ops ->
+    run_ops ops so = Some so' -> fixedb w = true ->
+    post (fst so') w = post (fst so) w /\ node_moments N lo hi (fst so') w = (lo w, zero N).
+  Proof. intros HQ H Hw. split; [eapply run_ops_post_fixed; eassumption|apply node_moments_fixed; exact Hw]. Qed.
 End Spec.
